@@ -228,6 +228,12 @@ def checker(F, rep, mf):
     T = luatpl.LuaTemplates(F)
     s = luatpl.summary(T, "Add")
     rep.ob("CHECKER-AGREES", "emission|Add", luatpl.render(s["value"]) == "__ADD({expand:1}, {expand:2})", "`+` reaches Lua as __ADD(a, b)")
+    import c01
+    for tok, (pnode, rop, irop, text) in sorted(c01.BIN_TABLE.items()):
+        sm = luatpl.summary(T, irop) if irop in T.arms else None
+        got = luatpl.render(sm["value"], lambda p: {1: "{l}", 2: "{r}"}.get(p[1], "{?}") if p[0] == "expand" else "{?}") if sm and sm["value"] else None
+        rep.ob("CHECKER-AGREES", "emission|%s" % irop, got == text,
+               "IR::%s reaches Lua as `%s` (expected `%s`): the metamethod Lua dispatches to is the one named after the operator, operands in order" % (irop, got, text))
     s = luatpl.summary(T, "Neg")
     rep.ob("CHECKER-AGREES", "emission|Neg", luatpl.render(s["value"]) == "(-{expand:1})", "unary minus reaches Lua as (-a): __unm on tuples")
     rep.info("the checker is stricter than the statement in one place: unary `-` on a tuple is rejected at compile time "
